@@ -14,7 +14,7 @@ Legs (DESIGN 3.3):
       lvalue, read-back values, values of assignment expressions, whole-struct assignment, pass/return by value,
       zero fill, VLA / alloca programs with canaries, alignment and overlap probes.
 """
-import os, json, hashlib, itertools, concurrent.futures
+import os, json, hashlib, itertools, time, concurrent.futures
 from .framework import *
 
 PROPERTY = 'C04'
@@ -1027,22 +1027,34 @@ def correspond(ctx, corr):
                  'chibicc output must equal gcc 12 output and the model prediction (unit bytes, designated address, block addresses). '
                  'non-trivial = field not filling its whole unit at offset 0 / a path of at least one step / a frame with more than two distinct offsets / '
                  'an allocation history; distinct by the canonical key of the case.')
+    t0 = time.time()
+    def lap(name):
+        nonlocal t0
+        ctx.notes.append(f'{name}: {time.time() - t0:.1f}s')
+        log(f'{name}: {time.time() - t0:.1f}s')
+        t0 = time.time()
     leg_corpus(ctx, corr)
+    lap('corpus')
     if corr.violations:
         return
     leg_bfseq(ctx, corr)
+    lap('bfseq')
     if corr.disagreements:
         return
-    leg_bf_behaviour(ctx, corr, 240 if not T else 4000)
+    leg_bf_behaviour(ctx, corr, 1200 if not T else 16000)
+    lap('bf-behaviour')
     if corr.violations or corr.disagreements:
         return
-    leg_aggregates(ctx, corr, 200 if not T else 3000)
+    leg_aggregates(ctx, corr, 1000 if not T else 12000)
+    lap('aggregates')
     if corr.violations or corr.disagreements:
         return
-    leg_frames(ctx, corr, 60 if not T else 900)
+    leg_frames(ctx, corr, 300 if not T else 4000)
+    lap('frames')
     if [v for v in corr.violations if not v.get('known_id')] or corr.disagreements:
         return
-    leg_alloca(ctx, corr, 40 if not T else 600)
+    leg_alloca(ctx, corr, 200 if not T else 2400)
+    lap('alloca')
     leg_known(ctx, corr)
     corr.exhaustive = False
     corr.extra['exhaustive_subspace'] = ('all 5,568 (type, width, offset) bit-field triples (text tie)' if T else
